@@ -14,7 +14,8 @@ import (
 	"verifharness/fw"
 )
 
-// go/ast facts about the three repaired places (notes/C02.fix-{1,2,3}.patch): they pin the switches of the Lean model's
+// go/ast facts about the repaired places (notes/C02.fix-{1,2,3}.patch here; fix-4: outcomeChanCapacity below; fix-5, fix-6:
+// facts_deploy.go): they pin the switches of the Lean model's
 // `Trans.Cfg.code` to the source text (Props/C02.lean: C02_cfg_is_code), and about the look-up of the task behind a failed
 // target and what an executor / agent loss writes (C02_lookup_is_code: the roster-level model `Trans.getTask`,
 // `Trans.handleExecutorFailed`, `Trans.handleAgentFailed`). The behaviour itself is tied by the
@@ -784,6 +785,8 @@ func genFacts(repo string) (string, error) {
 	fmt.Fprintf(&b, "/-- core/task (every non-test file): exactly one send on an `outcomeCh` and one receive from `tasksToDeploy`, both in the\n    same function of scheduler.go (resourceOffers), outside every loop of it; the send is on the channel of the request\n    that was taken, under no condition but `deploymentRequestPayload != nil`, and no `return` lies between the two -/\ndef oneVerdictPerRequest : Bool := %v\n\n", oneVerdictPerRequest(fset, filepath.Join(repo, "core/task")))
 	// the response time-out a transition gives its targets (facts_deadline.go)
 	b.WriteString(deadlineFacts(repo))
+	// the DEPLOY wait: hand-over of "the root is ACTIVE", and whether there is anything to wait for (facts_deploy.go)
+	b.WriteString(deployWaitFacts(repo))
 	b.WriteString("end Gen.C02\n")
 	return b.String(), nil
 }
